@@ -1,4 +1,18 @@
 """formatting stubs for crosshair proxies (documented environment stubs)"""
+import crosshair.core_and_libs   # make sure registrations exist
+from crosshair import core
+from crosshair.core import deep_realize, CrossHairValue
 from crosshair.libimpl import builtinslib as bl
 def _hex(self, *a, **k): return "<hex-of-symbolic-bytes>"
 bl.BytesLike.hex = _hex
+def _lazy_percent(self, other):
+    # like crosshair's _str_percent_format, but only symbolic *scalars* are realised;
+    # plain objects are formatted through their own __repr__/__str__ (traced), so a
+    # "%r" of a big object graph does not realise every symbolic value reachable from it
+    if not isinstance(self, str):
+        raise TypeError
+    items = other if isinstance(other, tuple) else (other,)
+    if any(isinstance(x, CrossHairValue) for x in items):
+        return self.__mod__(deep_realize(other))
+    return self.__mod__(other)
+core._PATCH_REGISTRATIONS[str.__mod__] = _lazy_percent
